@@ -45,7 +45,7 @@ fn agree(s: &str, rec: &mut Recorder) {
             let r2n: Result<&v1::Header<'_>, Option<&v1::ParseError>> = match &r2 {
                 Ok(h) => Ok(h),
                 Err(v1::BinaryParseError::Parse(e)) => Err(Some(e)),
-                Err(v1::BinaryParseError::InvalidUtf8(_)) => Err(None),
+                Err(_) => Err(None), // InvalidUtf8 (or a variant this harness does not know)
             };
             match (&r1, &r2n) {
                 (Ok(a), Ok(b)) if a == *b => {}
